@@ -32,12 +32,13 @@ def detect_fixes(repo):
     order = 0 <= i_enq < i_del
     chain = "flushnext" in srv
     boundfix = "func (fid *SrvFid) bind()" in srv
+    pending = bool(re.search(r"if fid\.pending \{", srv))
     return {"FixFallthrough": fallthrough, "FixStale": stale, "FixClose": close, "FixOrder": order, "FixChain": chain,
-            "FixBound": boundfix}
+            "FixBound": boundfix, "FixPending": pending}
 
 
 BASE = dict(NReq=2, Tags={1, 2}, Fids={1}, Kinds={"Stat", "Flush"}, FixFallthrough=False, FixStale=False,
-            FixClose=False, FixOrder=False, FixChain=False, FixBound=False, SharedTags=False, HasFlushOp=False, Extra=False, Late=False, PoolCap=4, Maxpend=0,
+            FixClose=False, FixOrder=False, FixChain=False, FixBound=False, FixPending=False, SharedTags=False, HasFlushOp=False, Extra=False, Late=False, PoolCap=4, Maxpend=0,
             InitFids={1}, CanClose=False, Held=set(), NoTag=0)
 
 
@@ -84,7 +85,7 @@ def normalise_ext(src, dst):
                  "fw": bool(ev == "R" and e.get("type") == "Rerror" and not re.fullmatch(r"E\d+", ename)),
                  "bad": e.get("bad", "") or "", "out": e.get("out", "") or "", "op": e.get("op", "") or "",
                  "parked": [p for p in parked if not p.startswith("impl:")], "held": held,
-                 "valid": bool(e.get("valid", False)), "ok": bool(e.get("ok", True)), "initial": bool(e.get("initial", False)),
+                 "valid": bool(e.get("valid", False)), "ok": bool(e.get("ok", True)), "initial": bool(e.get("initial", False)), "closed": bool(e.get("closed", False)),
                  "what": re.sub(r"[^A-Za-z0-9 _.:,/()-]+", " ", (e.get("what", "") or ""))[:200]}
             g.write(json.dumps(o) + "\n")
             n += 1
